@@ -177,6 +177,8 @@ qb_rb_open_2(const char *name, size_t size, uint32_t flags,
 	if (rb == NULL) {
 		return NULL;
 	}
+	/* nothing is mapped yet: the error path below must not look at it */
+	rb->shared_hdr = MAP_FAILED;
 
 	/*
 	 * Create a shared_hdr memory segment for the header.
